@@ -454,17 +454,17 @@ fn c06_scenarios(tier: Tier) -> Vec<Scenario> {
     alpha.push(Action::TxFail { ops: bodies[0].clone(), call: 1001 });
     alpha.push(Action::TxFail { ops: bodies[3].clone(), call: 1001 });
     let followups: Vec<Action> = bodies.iter().take(6).map(|b| Action::Tx { ops: b.clone(), commit: true }).collect();
-    let mut sc = Scenario::new("rollback-menu", Cfg::default(), setup, Box::new(alpha), if q { 3 } else { 4 }, or);
+    let mut sc = Scenario::new("rollback-menu", Cfg::default(), setup, Box::new(alpha), if q { 3 } else { 5 }, or);
     sc.drop_keeps_digest = true;
     sc.bisim_followups = followups;
     out.push(sc);
     // the kv alphabet with drops, smaller trees
     let ops = kv_ops(&KV_KEYS[..4], &KV_VALS);
-    let mut sc = Scenario::new("kv-drops-m2", Cfg::default(), kv_base(Some("w*300")), Box::new(txs_of(&ops, 2, true, true)), if q { 1 } else { 2 }, or);
+    let mut sc = Scenario::new("kv-drops-m2", Cfg::default(), kv_base(Some("w*300")), Box::new(txs_of(&ops, 2, true, true)), if q { 1 } else { 3 }, or);
     sc.drop_keeps_digest = true;
     out.push(sc);
     let nsmall = nest_ops_small();
-    let mut sc = Scenario::new("nest-drops-m2", Cfg::default(), vec![], Box::new(txs_of(&nsmall, 2, true, true)), 2, or);
+    let mut sc = Scenario::new("nest-drops-m2", Cfg::default(), vec![], Box::new(txs_of(&nsmall, 2, true, true)), if q { 2 } else { 3 }, or);
     sc.drop_keeps_digest = true;
     out.push(sc);
     out
